@@ -100,7 +100,7 @@ HINTS = {
 
 RULES = [
   ('rule17_str_pattern', r'\b(\w+)\.(starts_with|ends_with)\(&(\w+)\)', r'vx_\2(&\1, &\3)'),
-  ('rule20_decimal_neg', r'Number\(-(\w+)\)', r'Number(vx_dec_neg(\1))'),
+  ('rule20_decimal_neg', r'Number\(-(\w+(?:\.\w+\(\))*\??)\)', r'Number(vx_dec_neg(\1))'),
   ('rule19_external_const', r'\bDecimal::(ONE|ZERO)\b', lambda m: 'vx_dec_%s()' % m.group(1).lower()),
 ]
 # the documented built-in table (README 'BinaryExpression' table for the precedences; associativity / kind from properties C02, C06)
